@@ -84,3 +84,30 @@ func GoodCaller(t *node) *node {
 func BadCaller(t *node) *node {
 	return lastKid(t)
 }
+
+// shared preamble around the lazy initialiser (must be treated like the initialiser itself)
+func (b *B) ready() error {
+	if b.root == nil {
+		b.init()
+	}
+	if b.n < 0 {
+		return errors.New("finished")
+	}
+	return nil
+}
+
+func (b *B) GoodAddViaReady(w []byte) error {
+	if err := b.ready(); err != nil {
+		return err
+	}
+	if b.last != nil && bytes.Compare(b.last, w) >= 0 {
+		return errors.New("out of order")
+	}
+	last := w
+	if last == nil {
+		last = []byte{}
+	}
+	b.last = last
+	b.n++
+	return nil
+}
